@@ -140,4 +140,20 @@ PROPS = {
                      "the number of ticks is unbounded",
                      "not under contract: Resampler.__init__ (timer start alignment), add/remove_timeseries"],
     ),
+    "C08": dict(
+        modules=["ts_resampling_helper"],
+        contracts=[f"{RS}:_ResamplingHelper.add_sample", f"{RS}:_ResamplingHelper._update_source_sample_period",
+                   f"{RS}:_ResamplingHelper._update_buffer_len", f"{RS}:_ResamplingHelper.resample",
+                   f"{RS}:_StreamingHelper._receive_samples"],
+        lemmas=[],
+        bounded=[],
+        level="proof",
+        explanation="Class invariant of _ResamplingHelper (buffer sorted by time, within maxlen) preserved by every method; "
+                    "resample(T) hands the user's function exactly the contiguous run of buffered samples stamped in "
+                    "(T - max_age*max(period, input period), T], starting at the first relevant one, none left out, none "
+                    "from the future; value None iff nothing relevant.",
+        assumptions=[EXTRACTION, "datetime/timedelta as integer microseconds; timedelta*float rounds half-even",
+                     "bisect / islice / deque(maxlen) by their documented contracts (trusted_base)",
+                     "the user's resampling function is a scripted callable that records its argument"],
+    ),
 }
